@@ -213,4 +213,40 @@ func HarnessSchedTimed() {
 	default:
 		vrt.Reach("hour-timer-not-yet")
 	}
+	// callback timers: Reset postpones, Stop prevents
+	fired := 0
+	bump := func() {
+		mu.Lock()
+		fired++
+		mu.Unlock()
+	}
+	read := func() int {
+		mu.Lock()
+		defer mu.Unlock()
+		return fired
+	}
+	t1 := time.AfterFunc(10*time.Millisecond, bump)
+	t1.Reset(30 * time.Millisecond)
+	time.Sleep(20 * time.Millisecond)
+	if read() == 0 {
+		vrt.Reach("reset-postponed")
+	} else {
+		vrt.Reach("reset-ignored")
+	}
+	time.Sleep(20 * time.Millisecond)
+	if read() == 1 {
+		vrt.Reach("fired-once")
+	} else {
+		vrt.Reach("fired-other")
+	}
+	t2 := time.AfterFunc(10*time.Millisecond, bump)
+	if t2.Stop() {
+		vrt.Reach("stop-was-in-time")
+	}
+	time.Sleep(20 * time.Millisecond)
+	if read() == 1 {
+		vrt.Reach("stopped-timer-silent")
+	} else {
+		vrt.Reach("stopped-timer-fired")
+	}
 }
